@@ -297,6 +297,8 @@ def eval_style_case(case):
     """Evaluate one style case (two documents). -> (failures [(ident, detail)], stats Counter)."""
     if case.get("restyle"):
         return eval_restyle_case(case)
+    if case.get("over"):
+        return eval_over_case(case)
     fails = []
     stats = collections.Counter()
     seen = set()
@@ -413,6 +415,99 @@ def eval_style_case(case):
     except Exception as e:  # noqa: BLE001
         fail("read-before-save", "-", f"package-unreadable-{type(e).__name__}", f"independent reader failed on the saved package: {e}")
     _rm(pa, pb)
+    stats["style_docs"] += 2
+    stats["style_cases"] += 1
+    return fails, stats
+
+
+def apply_style(t, r, c, st, how):
+    if how == "obj":
+        t.set_cell_style(r, c, st)
+    elif how == "name":
+        t.set_cell_style(r, c, st.name)
+    elif how == "wobj":
+        t.write(r, c, f"v{r}{c}", style=st)
+        return repr(f"v{r}{c}")
+    elif how == "wname":
+        t.write(r, c, 10 * r + c + 0.5, style=st.name)
+        return repr(10 * r + c + 0.5)
+    else:
+        raise ValueError(how)
+    return None
+
+
+def eval_over_case(case):
+    """Restyle over an existing STORED style. case["over"] = {"mode": "reopen" | "session", "old": spec, "new": spec,
+    "how": method}. Two cells get the old style and the document is saved (so both carry stored style keys); then - on the
+    reopened document, or on the same open document - a NEW style is created and applied to the first cell only.
+    Oracle: that cell reports every attribute of the NEW style (defaults where the new style says nothing), its neighbour
+    still reports the old style, unstyled cells a pristine document; on the open document and after save + reopen."""
+    fails = []
+    stats = collections.Counter()
+    seen = set()
+
+    def fail(view, attr, cls, detail):
+        ident = {"mechanism": "style", "view": view, "attr": attr, "class": cls}
+        k = repr(sorted(ident.items()))
+        if k not in seen:
+            seen.add(k)
+            fails.append((ident, detail))
+
+    ov = case["over"]
+    base = baseline()
+    p1, p2 = _tmp("o1"), _tmp("o2")
+    target, keeper = (1, 1), (1, 2)
+    views = {}
+    written = {}
+    try:
+        doc = Document(num_rows=NR, num_cols=NC)
+        t = doc.sheets[0].tables[0]
+        old = doc.add_style(name="C15 Old", **{a: to_api(a, v, 0) for a, v in ov["old"].items()})
+        t.set_cell_style(*target, old)
+        t.set_cell_style(*keeper, old)
+        doc.save(p1)
+        if ov["mode"] == "reopen":
+            doc = Document(p1)
+            t = doc.sheets[0].tables[0]
+        new = doc.add_style(name="C15 New", **{a: to_api(a, v, 1) for a, v in ov["new"].items()})
+        w = apply_style(t, target[0], target[1], new, ov["how"])
+        if w is not None:
+            written[target] = w
+        views["live-after-restyle"] = read_table(t)
+        doc.save(p2)
+        views["file-after-restyle"] = read_table(Document(p2).sheets[0].tables[0])
+    except Exception as e:  # noqa: BLE001
+        fail("restyle-over-stored", "-", f"raised-{type(e).__name__}", f"{type(e).__name__}: {e}; case {case}")
+        _rm(p1, p2)
+        return fails, stats
+    want_by = {target: expected_snap(ov["new"], "C15 New", 1), keeper: expected_snap(ov["old"], "C15 Old", 0)}
+    for vname, view in views.items():
+        for rc in ALL_CELLS:
+            got = view[rc]
+            want = want_by.get(rc, base[rc]["style"])
+            stats["style_evaluations" if rc in want_by else "unstyled_evaluations"] += 1
+            if isinstance(got["style"], str):
+                fail(vname, "-", "style-read-raised", f"{vname}: cell {rc}: reading cell.style gave {got['style']}")
+                continue
+            for a in ATTRS + ["name"]:
+                stats["attr_comparisons"] += 1
+                g, wv = got["style"][a], want[a]
+                if g == wv:
+                    continue
+                if a in FLOAT_ATTRS and isinstance(g, float) and g == f32(wv) and g != wv:
+                    cls = "float32-rounding"
+                elif rc == target:
+                    cls = "old-style-shows-through" if g == want_by[keeper][a] else "value-differs"
+                elif rc == keeper:
+                    cls = "other-cell-changed"
+                else:
+                    cls = "unstyled-cell-changed"
+                fail(vname, a, cls, f"{vname}: cell {target} carried stored style {ov['old']} ({ov['mode']}), was restyled with NEW style {ov['new']} by {ov['how']}; "
+                                    f"cell {rc} reports {a}={g!r}, expected {wv!r}")
+            wantv = written.get(rc, base[rc]["value"])
+            if got["value"] != wantv:
+                fail(vname, "value", "value-differs", f"{vname}: cell {rc} value {got['value']} expected {wantv}")
+    _rm(p1, p2)
     stats["style_docs"] += 2
     stats["style_cases"] += 1
     return fails, stats
@@ -705,6 +800,19 @@ def gen_style_cases(tier, seed):
             for target in ((1, 1), (1, 2), (2, 2), (2, 1)):
                 cases.append({"kind": "style", "family": "loaded-restyle", "styles": [s0, s1], "cells": sharing, "ctor": "kwargs", "autoname": False,
                               "restyle": [target[0], target[1], a, v]})
+    # (g) restyle over an existing STORED style (cell reloaded from a file, or saved once in this session): the new style is
+    # the all-default plain style or differs from it in one attribute class; every attribute must be the NEW style's
+    old_style = {"bg_color": [255, 0, 255], "text_inset": 1.0, "text_wrap": False, "alignment": ["center", "bottom"], "bold": True, "font_size": 14.25,
+                 "left_indent": 0.5}
+    news = [{}] + [{a: pc[a][(seed + 1) % len(pc[a])]} for a in ATTRS]
+    oi = 0
+    for new_style in news:
+        for mode in ("reopen", "session"):
+            hows = METHODS if (tier == "thorough" or not new_style) else [METHODS[oi % 3]]
+            for how in hows:
+                cases.append({"kind": "style", "family": "restyle-over-stored", "styles": [old_style, new_style], "cells": [],
+                              "over": {"mode": mode, "old": old_style, "new": new_style, "how": how}})
+            oi += 1
     # (d) the shortcut visible in update_cell_styles: styles whose concatenated fingerprints coincide
     collide = [
         [{"bg_color": [1, 23, 4]}, {"bg_color": [12, 3, 4]}],
@@ -762,7 +870,9 @@ def style_worker(chunk):
 # =============================================================================================
 
 SIDES = ["top", "right", "bottom", "left"]
-PALETTE = [[2.0, [255, 0, 0], "solid"], [3.0, [0, 255, 0], "dashes"], [0.35, [0, 0, 255], "dots"]]
+# two of the three looks differ ONLY in the pattern (dashes vs dots share the stored pattern type and differ in the pattern array)
+PALETTE = [[2.0, [255, 0, 0], "solid"], [0.35, [0, 0, 255], "dashes"], [0.35, [0, 0, 255], "dots"]]
+GROWN = ["append", "insert", "write", "rows2"]
 # the merged rectangles of a 3x3 table for which BOTH stroke classes exist: a refused stroke (start edge interior) that would
 # have run on beyond the rectangle, and an accepted stroke that starts outside and crosses interior edges
 RECTS = [(0, 1, 1, 2), (1, 0, 1, 1), (0, 1, 1, 1), (1, 0, 2, 1), (1, 0, 1, 2), (0, 1, 2, 1), (1, 1, 1, 2), (1, 1, 2, 1)]
@@ -901,6 +1011,26 @@ class BorderSpec:
         st.rect = None
         if shape == "two":
             st.doc = Document(two_table_path())
+        elif shape.startswith("g:"):
+            # a 3x3 table whose last/inner row and column were added in THIS session
+            how = shape[2:]
+            nr0, nc0 = (1, NC) if how == "rows2" else (NR - 1, NC - 1)
+            st.doc = Document(num_rows=nr0, num_cols=nc0, num_header_rows=0, num_header_cols=0)
+            t = st.doc.sheets[0].tables[0]
+            if how == "append":
+                t.add_row()
+                t.add_column()
+            elif how == "insert":
+                t.add_row(1, 1)
+                t.add_column(1, 0)
+            elif how == "write":
+                t.write(NR - 1, NC - 1, "grown")  # implicit growth by writing beyond the bounds
+            elif how == "rows2":
+                t.add_row(2)
+            else:
+                raise ValueError(how)
+            if (t.num_rows, t.num_cols) != (NR, NC):
+                raise RuntimeError(f"grown table is {t.num_rows}x{t.num_cols}")
         else:
             st.doc = Document(num_rows=NR, num_cols=NC, num_header_rows=0, num_header_cols=0)
         st.tabs = self._tables(st.doc)
@@ -1129,9 +1259,13 @@ def border_plan(tier, seed):
     def merged(i):
         return "m:" + ",".join(map(str, RECTS[i % len(RECTS)])) + f"|{rot}"
 
+    def grown(i):
+        return f"g:{GROWN[i % len(GROWN)]}|{rot}"
+
     if tier == "quick":
         return [
-            (2, False, [f"all-cycle3@{plain}", f"collinear-one-reopen@{plain}", f"collinear-cycle3@{merged(seed + 1)}"]),
+            (2, False, [f"all-cycle3@{plain}", f"collinear-one-reopen@{plain}", f"collinear-cycle3@{merged(seed + 1)}"] + [f"collinear-one@{grown(seed + i)}" for i in range(3)]),
+            (1, True, [f"all-one@{grown(seed + i)}" for i in range(3)]),
             (2, True, [f"collinear-cycle3@{plain}", f"collinear-one@{merged(seed)}", f"redraw@{plain}", f"redraw@{merged(seed)}",
                        f"redraw-rs@{plain}", f"two-tables@{two}"]),
         ]
@@ -1140,7 +1274,7 @@ def border_plan(tier, seed):
         (3, False, [f"collinear-cycle@{plain}"]),
         (2, True, [f"all-one@{plain}", f"collinear-cycle3@{plain}"] + [f"collinear-cycle3@{merged(seed + i)}" for i in range(3)] + [f"collinear-cycle3-reopen@{plain}"]
          + [f"collinear-one-reopen@{merged(seed + i)}" for i in range(2)] + [f"redraw@{plain}"] + [f"redraw@{merged(seed + i)}" for i in range(3)]
-         + [f"redraw-rs@{plain}", f"redraw-rs@{merged(seed)}", f"two-tables-wide@{two}"]),
+         + [f"redraw-rs@{plain}", f"redraw-rs@{merged(seed)}", f"two-tables-wide@{two}"] + [f"collinear-one@{grown(i)}" for i in range(len(GROWN))]),
         (3, True, [f"collinear-one@{plain}"]),
     ]
 
@@ -1207,8 +1341,9 @@ def main():
     run.floor("redraw triples [a, b sharing an edge with a, a again]: >= 1000 executed, >= 500 more with a save+reopen before the redraw; >= 400 strokes on a second table",
               sum(v for k, v in oc.items() if k.startswith("seq:s+s:")) >= 1000 and sum(v for k, v in oc.items() if k.startswith("seq:s+rs:")) >= 500
               and sum(v for k, v in oc.items() if k.endswith("@t1")) >= 400)
+    run.floor("strokes on tables grown in this session were explored", any("@g:" in i for pl in run.extra.get("plan", []) for i in pl["inits"]))
     run.floor(">= 15000 stroke transitions and >= 1000 save/reopen probes", run.counters["transitions"] >= 15000 and run.counters["probes"] >= 1000)
-    run.assume("border looks are three representatives (solid/dashes/dots, widths 2.0/3.0/0.35); widths needing more than 2 decimals, the 'none' pattern, tables other than 3x3, "
+    run.assume("border looks are three representatives (solid 2.0 red; dashes and dots of equal width 0.35 and colour); widths needing more than 2 decimals, the 'none' pattern, tables other than 3x3, "
                "more than one merged rectangle and histories longer than the depth bound are not explored")
     run.assume("style values outside the enumerated domains (other sizes/indents, the 16.7 million colours not on the lattice, gradients, which cannot be written) are represented, not enumerated; "
                "a style that is given both bg_image and bg_color is outside the statement (colour OR image)")
